@@ -21,12 +21,16 @@ def kpool (t : Tokens) : String :=
 
 /-- kmux: the monitor is the property: no foreign data, no hang, distinct tags, no fid handed out
 while still bound, every unanswered call fails after a fault, later calls fail on a dead link. -/
-def kmux (t : Tokens) : String :=
-  if (t.get? "prepfailures").isSome then "prepfailures=few-expected-see-lhs" else "foreign=0 hung=0 duptag=0 reuse= errsok=1 laterok=1 wrongerr=0"
+def kmux (_ : Tokens) : String := "foreign=0 hung=0 duptag=0 reuse= errsok=1 laterok=1 wrongerr=0"
 
 /-- kmuxfid: a fid whose Tclunk is unanswered is outstanding in the pool model (Put happens after
 the reply): an allocation in between never returns it (`Pool` invariant: no duplicates among
 cache ++ outstanding) -/
 def kmuxfid (_ : Tokens) : String := "formed=1 inflight_reuse=0"
+
+/-- kstale: a call whose request could not be written leaves nothing behind (`Conc/RespPool.lean`:
+a pooled response is referenced by no pending map and its channel is empty): a call on another,
+healthy connection keeps waiting for its own reply and gets it. -/
+def kstale (_ : Tokens) : String := "formed=1 early=0 own=1 hung=0"
 
 end P9.Driver
